@@ -327,3 +327,5 @@ _Q = {"cli.reference[plumbing]|held": 10, "reference.do_reference|held": 70, "re
       "reference.do_reference[semantic]|held": 30, "class:depth-only": 8, "class:refusal:mismatching-bins": 5,
       "reference.do_reference_flat|held": 25, "reference.get_fasta_stats|held": 15, "extra:summarize_info:columns-judged": 5000}
 QUOTAS = {"quick": _Q, "thorough": {k: v * 8 for k, v in _Q.items()}}
+
+INTERNAL_MONITORS = {"reference.summarize_info": ["extra:summarize_info:columns-judged"], "reference.get_fasta_stats": []}
